@@ -530,6 +530,64 @@ func c15eval(cas c15case) *Violation {
 		}
 		return nil
 	}
+	if cas.Layer == "L2b-empty-attr-between" {
+		// an empty log/slog Attr (ignored by log/slog handlers) between other attributes: everything after it must still arrive
+		rec := logslog.NewRecord(tsZone, logslog.LevelWarn, msg, 0)
+		rec.AddAttrs(logslog.String("method", "GET"), logslog.Attr{}, logslog.Int("status", 200), logslog.Group("", logslog.Int("inl", 1)), logslog.Attr{}, logslog.Bool("z", true))
+		if pan := catch(func() { _ = h.Handle(ctx, rec) }); pan != "" {
+			return mk("call-returns", firstLine(pan))
+		}
+		if len(w.rec.events) != 1 {
+			return mk("emitted-once", fmt.Sprintf("%d records", len(w.rec.events)))
+		}
+		// (how the empty attribute itself is rendered is not stated - in logfmt its empty key is outside C05's
+		// domain - so only the presence of the others is judged, on the text)
+		text := slog.StripEscapes(w.rec.events[0].Payload)
+		for _, k := range []string{"method", "status", "z"} {
+			if !strings.Contains(text, k+"=") && !strings.Contains(text, `"`+k+`":`) {
+				return mk("record-attrs", fmt.Sprintf("attribute %q (after an empty Attr) is missing: %.250q", k, w.rec.events[0].Payload))
+			}
+		}
+		c15last = w.rec.events[0].Payload
+		return nil
+	}
+	if cas.Layer == "L4w-level-writer" {
+		// the logger behind the handler sends Warn records to a per-level writer: so must every derived handler
+		lw := &plainW{"level-writer", w.rec}
+		w.l.AddLevelWriter(slog.WarnLevel, lw)
+		hh := w.h
+		for _, c := range cas.Chain {
+			switch c {
+			case "WithAttrs(a)":
+				hh = hh.WithAttrs([]logslog.Attr{logslog.Int("wa", 11)})
+			case "WithAttrs(b)":
+				hh = hh.WithAttrs([]logslog.Attr{logslog.String("wb", "bee"), logslog.Bool("wc", true)})
+			case "WithGroup(g)":
+				hh = hh.WithGroup("g")
+			}
+		}
+		for _, lv := range []logslog.Level{logslog.LevelWarn, logslog.LevelInfo, logslog.LevelError} {
+			w.rec.reset()
+			rec := logslog.NewRecord(tsZone, lv, msg, 0)
+			rec.AddAttrs(logslog.Int("own", 5))
+			if pan := catch(func() { _ = hh.Handle(ctx, rec) }); pan != "" {
+				return mk("call-returns", firstLine(pan))
+			}
+			want := "under"
+			if lv == logslog.LevelWarn {
+				want = "level-writer"
+			}
+			if len(w.rec.events) != 1 || w.rec.events[0].W != want {
+				var got []string
+				for _, e := range w.rec.events {
+					got = append(got, e.W)
+				}
+				return mk("keeps-destination", fmt.Sprintf("log/slog level %d through a handler derived by %v went to %v, the logger behind it sends it to [%s]", int(lv), cas.Chain, got, want))
+			}
+		}
+		c15last = w.rec.events[0].Payload
+		return nil
+	}
 	if cas.Layer == "L4d-reentrant" {
 		// one derived handler with a bound attribute handles a record one of whose values, while it is being
 		// formatted, hands another record to the same handler: both records must come out whole
@@ -790,6 +848,14 @@ func c15cases(thorough bool, emit func(c15case)) {
 					emit(c15case{Layer: "L1r-levels-after-registrations", Format: f, LogLevel: int(L), SlogLvl: lv, Via: via, Reg: true})
 				}
 			}
+		}
+	}
+	// L2b: empty attributes between others; L4w: per-level writers of the logger behind the handler
+	for _, f := range formats {
+		emit(c15case{Layer: "L2b-empty-attr-between", Format: f, LogLevel: int(slog.TraceLevel), SlogLvl: 4, Via: "Handle"})
+		emit(c15case{Layer: "L4w-level-writer", Format: f, LogLevel: int(slog.TraceLevel), SlogLvl: 4, Via: "Handle"})
+		for _, ch := range chains {
+			emit(c15case{Layer: "L4w-level-writer", Format: f, LogLevel: int(slog.TraceLevel), SlogLvl: 4, Chain: ch, Via: "Handle"})
 		}
 	}
 	// L4d: a value that re-enters the handler while its record is being formatted
